@@ -209,3 +209,18 @@ Theorem C06_tdmag_magnitude : forall (m2c : R -> R -> R) t0 x0 f0 g0 u zp d00 d0
        (Mag.num (- (e0 * (p00 * e0 + p01 * e1) + e1 * (p10 * e0 + p11 * e1)) / 2 - 1 / 2 * (2 * ln (2 * PI) + L))) cu [("inv", [cov])].
 Proof. intros. split; [apply tdmagmag_model_cov | apply tdmagmag_loglike]. Qed.
 Print Assumptions C06_tdmag_magnitude.
+
+(* ---- the two-dimensional (Ddt, Dd) KDE likelihood: the evaluation point ---- *)
+Require Import C06.DdtDdKde.
+(* the density of the posterior samples (an arbitrary function dens of (Dd, Ddt), recorded by the KDE oracle) is evaluated at
+   (Dd * kinematic scaling, Ddt) - in that argument order - a shape-(1,) Ddt is squeezed to a scalar first, the value is the KDE's entry unchanged;
+   lenstronomy's current method name is used when the object has it, the old one otherwise *)
+Theorem C06_ddt_dd_kde_point : forall (dens : R -> R -> R) ddt dd s rg cu,
+  yields (Gkde dens true) 80 (CFun src_DdtDdKDELikelihood_log_likelihood) (Some kde_obj) [Mag.num ddt; Mag.num dd] [("kin_scaling", Mag.vec [s])] rg cu
+    (Mag.num (dens (dd * s) ddt)) cu [("kde.log_likelihood", [Mag.num (dd * s); Mag.num ddt])]
+  /\ yields (Gkde dens true) 80 (CFun src_DdtDdKDELikelihood_log_likelihood) (Some kde_obj) [VArr [Mag.num ddt]; Mag.num dd] [] rg cu
+    (Mag.num (dens dd ddt)) cu [("kde.log_likelihood", [Mag.num dd; Mag.num ddt])]
+  /\ yields (Gkde dens false) 80 (CFun src_DdtDdKDELikelihood_log_likelihood) (Some kde_obj) [Mag.num ddt; Mag.num dd] [] rg cu
+    (Mag.num (dens dd ddt)) cu [("kde.logLikelihood", [Mag.num dd; Mag.num ddt])].
+Proof. intros. split; [apply kde_point_scaled | split; [apply kde_point_unscaled | apply kde_point_old_api]]. Qed.
+Print Assumptions C06_ddt_dd_kde_point.
